@@ -11,6 +11,8 @@ CHECKS = {
          "Four-call normalisation sessions from arbitrary, canonical and mutated inputs recorded from the real library; TLC evaluates idempotence and canonical reproduction on the recorded results where the model itself normalises the input."),
  "C03": ("TLC trace validation of recorded calls against the TLA+ reference semantics Sem/Codecs; TLC cross-check Codecs vs RefFormats (MC_Codecs)", "4.C03",
          "Every recorded call (value built, bytes parsed) of every integer/float alias and core construct is compared by TLC with the independent TLA+ reference: bytes, value, consumption, acceptance. Exhaustive for 8/16-bit domains and short inputs over the boundary alphabet, boundary+random for wide domains (limb arithmetic, no 32-bit limit). The TLA+ codecs are themselves checked against closed forms by TLC (MC_Codecs)."),
+ "C04": ("TLC predicate C04Equiv on recorded pairs (same call on the interpreter and on the compiled instance) + trace validation of the interpreter side; rendering faithfulness by MC_C11", "4.C04",
+         "Every compilable program (random, systematic wrapper x leaf universe, expression-heavy conditionals / lengths / counts with string and bytes constants, unary and reflected operators, dependent probe members after every composite) is compiled and every accepted input / buildable value / sizeof is run on both; TLC evaluates equality of value, position and bytes on each recorded pair."),
  "C05": ("TLC predicates C05Total / C05Exact on recorded sizeof/build/parse sessions + trace validation of sizeof", "4.C05",
          "sizeof with keys present/absent and measured stream advances of build_stream/parse_stream at offsets, recorded from the real library; TLC evaluates totality (integer or SizeofError) and exactness."),
  "C06": ("TLC: CAM root clauses (only ConstructError, termination), C06Prefix, C06Fault on recorded runs incl. injected stream faults at every operation index", "4.C06",
@@ -25,6 +27,8 @@ CHECKS = {
          "Acceptance, value and bytes in both directions for every one-byte input and value and all label spellings, and ExplicitError never absorbed, compared by TLC with Sem."),
  "C10": ("TLC predicates C10BitRef (native-integer reference packing) and C10.paths (pre-read vs streaming path) + trace validation of both paths against Sem/Streams", "4.C10",
          "Bit-level regions over partitions of 8..32 bits (thorough: 64) with signed/swapped fields, Flag, Padding, nested Struct/Array and Bytewise islands, built on both implementations of the region; TLC checks the built bytes against the big-endian concatenation of two's-complement patterns, the agreement of both paths on bytes and values, and every recorded step against the RestreamedBytesIO buffer machine of Streams.tla."),
+ "C11": ("TLC model checking of ReprFaithful (Render + Python-precedence Reparse in TLA+) over all trees to depth 2 with a negative control; TLC trace validation (TraceExpr) of repr text, expr(env) vs Eval, eval(repr) vs expr(env)", "4.C11",
+         "Design level: TLC enumerates every expression tree to the depth bound over the full operator table and checks that the rendering, re-parsed under Python's precedence rules, denotes the same function in all small environments (and must find the counter-example under the snapshot's rule). Conformance: the same trees built through the real overloads, evaluated by the library and by Python's own eval of the repr."),
  "C12": ("TLC predicate C12Equiv on recorded pairs (same call on both sides of each documented law and operator spelling)", "4.C12",
          "Every law instance (widths, signedness, swapping, aliases, macros, enum classes vs keywords, display wrappers, operator spellings) is run on both sides through the real factories on all short inputs over the boundary alphabet and on in- and out-of-range values; TLC evaluates extensional equality on each recorded pair."),
  "C14": ("TLC replay through CAM.tla (RawCopy clauses) + TLC predicates C14Verifies / C14Detects / C14SameBytes; hashes uninterpreted with logged graphs", "4.C14",
@@ -35,8 +39,6 @@ CHECKS = {
          "Every failing recorded behaviour (all truncation offsets of canonical encodings of nested named structures, every member made unbuildable in turn, random inputs) is replayed by TLC: the path equals the operation prefix plus the Renamed names on the stack where the error was created and is kept while propagating; truncation at j names the members whose recorded extent contains j."),
 }
 PENDING = {
- "C04": "check under construction in this round (compiled vs interpreted sessions; DESIGN.md 4.C04)",
- "C11": "check under construction in this round (Expr.tla Eval/Render/Reparse; DESIGN.md 4.C11)",
  "C16": "check under construction in this round (Lazy.tla; DESIGN.md 4.C16)",
  "C17": "check under construction in this round (Session.tla; DESIGN.md 4.C17)",
  "C19": "check under construction in this round (Ksy.tla; DESIGN.md 4.C19)",
